@@ -361,6 +361,9 @@ def dump_accessible(aobj, objs, aname, modobj=None):
     return d
 
 
+_TYPE_TAG = {}
+
+
 def ns_value(v, depth=0):
     """canonical form of a value found in a class namespace / an instance __dict__: plain data by content (containers
     recursively), everything else (functions, descriptors, Parameter/Property/datatype objects - dumped elsewhere -, locks,
@@ -374,12 +377,13 @@ def ns_value(v, depth=0):
     if depth > 4:
         return '...'
     if isinstance(v, dict):
-        return {'dict': sorted(([jtext(ns_value(k, depth + 1)), ns_value(x, depth + 1)] for k, x in v.items()), key=lambda kv: kv[0])}
+        return {'dict': sorted(([k if isinstance(k, str) else '#' + jtext(ns_value(k, depth + 1)), ns_value(x, depth + 1)]
+                                for k, x in v.items()), key=lambda kv: kv[0])}
     if isinstance(v, (list, tuple)):
         return {type(v).__name__: [ns_value(x, depth + 1) for x in v]}
     if isinstance(v, (set, frozenset)):
-        return {'set': sorted(jtext(ns_value(x, depth + 1)) for x in v)}
-    return '<' + type(v).__name__ + '>'
+        return {'set': sorted(x if isinstance(x, str) else '#' + jtext(ns_value(x, depth + 1)) for x in v)}
+    return _TYPE_TAG.get(type(v)) or _TYPE_TAG.setdefault(type(v), '<' + type(v).__name__ + '>')
 
 
 def ns_digest(namespace):
@@ -1007,6 +1011,9 @@ def gen_program(rng, big):
                     cands = [c for c in mixins + mixins + features + features + BUILTIN_MIXINS + modules + ROOTS
                              if wild and c not in bases or not any(related(ex, c, b) for b in bases)]
                     cands = [c for c in cands if c not in ROOTS or wild or all(b in mixins + features + BUILTIN_MIXINS for b in bases)]
+                    # the control mixins declare `target = Parameter()`: somebody else has to bring its datatype
+                    has_target = any(kinds.get(b, {}).get('target') for b in bases)
+                    cands = [c for c in cands if c not in BUILTIN_MIXINS or has_target or rng.random() < 0.1]
                     if not cands:
                         break
                     c = rng.choice(cands)
@@ -1128,9 +1135,14 @@ def gen_program(rng, big):
                     aname = key if key in est and rng.random() < 0.7 else rng.choice(same or sorted(est))
                     cfg.pop(aname, None)
                     op['share'] = {aname: [sec, key]}
-            ops.append(op)
             pkeys = {a: est[a] for a in cfg if a in est and isinstance(cfg[a], dict)}
             pkeys.update({a: sections[sk[0]][1][sk[1]] for a, sk in (op.get('share') or {}).items()})
+            if rng.random() < 0.35:
+                # as the server does it: the section is loaded with the configuration, the module is created from it afterwards
+                ops.append(dict(op, op='load'))
+                ex.apply(ops[-1])
+                op = {'op': 'inst', 'name': name, 'cls': cls, 'from': name}
+            ops.append(op)
             if ex.apply(op)['outcome'] == 'ok':
                 insts[name] = cls
             if 'cfg:' + name in ex.steps[-1]['after']:
@@ -1224,7 +1236,9 @@ def wire_entries(op):
     out = [['description', {'new': [['value', jtext(canon(cfg.pop('description', 'module')))]]}]]
     # a module property is configured as `name = value` or `name = {'value': value}` (modulebase.py:372-384; Mod() wraps a
     # plain value into Param(value))
-    out += [[a, {'new': wire_props(c) if isinstance(c, dict) else [['value', jtext(canon(c))]]}] for a, c in cfg.items() if c is not None]
+    # (`Param(value=..., **kwds)` is a dict with the item `value` LAST, config.py:52-56)
+    out += [[a, {'new': wire_props(dict({k: v for k, v in c.items() if k != 'value'}, **{k: v for k, v in c.items() if k == 'value'}))
+                 if isinstance(c, dict) else [['value', jtext(canon(c))]]}] for a, c in cfg.items() if c is not None]
     shared = op.get('share') or {}
     out = [e for e in out if e[0] not in shared]
     return out + [[a, {'shared': list(sk)}] for a, sk in shared.items()]
@@ -1451,6 +1465,9 @@ def requests_for(program, init, steps, second=None):
             reqs.append({'p': 'C09', 'k': 'judge_later', 'first': first['inst:' + op['echo_of']], 'later': first['inst:' + op['name']]})
     if second is not None:
         reqs.append({'p': 'C09', 'k': 'judge_order', 'a': first, 'b': at_creation(second)})
+        # the second run (classes in another order, the configuration loaded as a whole, then the modules) is a run, too
+        reqs.append({'p': 'C09', 'k': 'judge_run', 'init': text_dumps(init['dumps']),
+                     'steps': [{'target': step_target(st), 'after': text_dumps(st['after'])} for st in second]})
     return reqs, laters
 
 
@@ -1541,8 +1558,18 @@ def evaluate(ctx, program, init, steps, second, answers, laters):
         ans = next(it)
         if ans['bad']:
             viols.append({'sig': 'C09:order-dependent:' + '+'.join(sorted({o.split(':')[0] for o in ans['bad']})),
-                          'what': f'{ans["bad"]} look different when the same classes are defined in another order',
+                          'what': f'{ans["bad"]} look different when the same classes are defined and the same modules created in another order',
                           'case': program, 'detail': {'owners': ans['bad'], 'second_order': [st['op'].get('name') for st in second]}})
+        ans = next(it)
+        if ans['bad'] is not None:
+            i, owners = ans['bad']
+            op = second[i]['op']
+            okind = sorted({'builtin' if o.split(':')[1] in builtin_owners() else o.split(':')[0] for o in owners})
+            what = ('' if second[i]['outcome'] == 'ok' else 'failed-') + op['op']
+            viols.append({'sig': f'C09:isolation:{what}-changes-{"+".join(okind)}',
+                          'what': f'operation {i} of the run in the other order ({json.dumps(op)[:300]}) changed the dump of {owners}',
+                          'case': dict(program, second={'ops': [st['op'] for st in second]}),
+                          'detail': {'step': i, 'owners': owners, 'in': 'second'}})
     return dis, viols
 
 
@@ -1561,10 +1588,10 @@ def run_case(ctx, program, rng, with_order=True):
     return evaluate(ctx, program, init, steps, second, answers, laters)
 
 
-def shrink(ctx, program, sig, rng):
+def shrink(ctx, program, sig, rng, in_second=False):
     def fails(ops):
-        _, viols = run_case(ctx, {'ops': ops}, rng, with_order=sig.startswith('C09:order'))
-        return any(v['sig'] == sig for v in viols)
+        _, viols = run_case(ctx, {'ops': ops}, rng, with_order=in_second or sig.startswith('C09:order'))
+        return any(v['sig'] == sig and ((v.get('detail') or {}).get('in') == 'second') == in_second for v in viols)
     try:
         return {'ops': ddmin(program['ops'], fails, max_tests=120)}
     except Exception:
@@ -1588,7 +1615,7 @@ def run(ctx):
         for fn in sorted(os.listdir(cdir)):
             with open(os.path.join(cdir, fn)) as f:
                 cases.append(('corpus', json.load(f)['case']))
-    n = ctx.budget(300, 1500)
+    n = ctx.budget(240, 1200)
     shrunk = 0
     batch_reqs, batch_meta = [], []
 
@@ -1609,7 +1636,13 @@ def run(ctx):
             for v in viols:
                 if shrunk < 4 and not any(x['sig'] == v['sig'] for x in res.violations):
                     shrunk += 1
-                    v = dict(v, case=shrink(ctx, program, v['sig'], random.Random(1)), detail=dict(v.get('detail') or {}, original=program))
+                    in_second = (v.get('detail') or {}).get('in') == 'second'
+                    small = shrink(ctx, program, v['sig'], random.Random(1), in_second)
+                    if in_second:       # the replay needs the other order, too: the one the shrunk program fails with
+                        _, again = run_case(ctx, small, random.Random(1))
+                        again = [x for x in again if x['sig'] == v['sig'] and (x.get('detail') or {}).get('in') == 'second']
+                        small = again[0]['case'] if again else v['case']
+                    v = dict(v, case=small, detail=dict(v.get('detail') or {}, original=program))
                 res.violations.append(v)
         batch_reqs.clear()
         batch_meta.clear()
@@ -1685,10 +1718,15 @@ def replay(ctx, payload):
         print('judge:', v['sig'], '-', v['what'])
         d = v.get('detail') or {}
         if 'step' in d:
-            prev = init['dumps'] if d['step'] == 0 else steps[d['step'] - 1]['after']
+            run_ = steps
+            if d.get('in') == 'second':
+                run_ = impl_run(v['case']['second'])[1]
+                for i, st in enumerate(run_):
+                    print('  other order', i, json.dumps(st['op'])[:300], '->', st['outcome'])
+            prev = init['dumps'] if d['step'] == 0 else run_[d['step'] - 1]['after']
             for o in d['owners']:
                 print('  before', o, json.dumps(prev.get(o))[:1200])
-                print('  after ', o, json.dumps(steps[d['step']]['after'].get(o))[:1200])
+                print('  after ', o, json.dumps(run_[d['step']]['after'].get(o))[:1200])
     if not viols:
         print('judge: ok')
     return 1 if viols else 0
